@@ -86,11 +86,11 @@ func selfTest(spec *PropSpec, ids []string, repo, verif string, known []KnownFin
 		fmt.Fprintf(os.Stderr, "%s: checker weakness: seeded fault %s is not reported by this property's rules\n", spec.ID, m)
 	}
 	return map[string]any{
-		"seeded_faults":          total,
-		"seeded_faults_reported": reported,
-		"seeded_faults_skipped":  skipped,
-		"seeded_faults_missed":   missed,
-		"seeded_faults_hit":      hit,
+		"seeded_faults":             total,
+		"seeded_faults_reported":    reported,
+		"seeded_faults_skipped":     skipped,
+		"seeded_faults_missed":      missed,
+		"seeded_faults_hit":         hit,
 		"seeded_faults_skipped_why": skippedNames,
 	}
 }
